@@ -1307,6 +1307,23 @@ Proof.
   destruct (nth_error (heap R) d); exact HH.
 Qed.
 
+Lemma HInv_rt_remove_obj R p0 fl : Inv R -> HInv R -> HInv (fst (rt_remove_obj R p0 fl)).
+Proof.
+  intros HI0 HH. unfold rt_remove_obj. destruct (rt_match R p0 fl) as [d|]; [|exact HH].
+  destruct (pattern_of_rid R d) as [pattern|]; [|exact HH].
+  destruct (rd_remove (tree R) pattern false true) as [t'|] eqn:Er; [|exact HH].
+  assert (Hsame : forall e, In e (hpaths t') <-> In e (hpaths (tree R))).
+  { intros e. rewrite (remove_hpaths_exact (tree R) pattern false true t' (inv_wf R HI0)); auto; [tauto|].
+    now rewrite andb_false_r. }
+  destruct (al_get (routes R) pattern); unfold HInv; simpl; apply (HI_same (tree R)); auto.
+Qed.
+
+Lemma HInv_rt_route_method R p fl ms h ow : HInv R -> HInv (fst (rt_route_method R p fl ms h ow)).
+Proof.
+  intros HH. unfold rt_route_method. destruct (rt_match R p fl) as [d|]; [|exact HH].
+  destruct (nth_error (heap R) d); [|exact HH]. destruct (if ow then Some _ else mt_add _ _ _); exact HH.
+Qed.
+
 (* histories without prefix-"*" removals *)
 Definition noprefix_cmd (c : cmd) : Prop :=
   hist_cmd c /\ match c with CRemovePattern p => ends_star p = false | _ => True end.
@@ -1322,6 +1339,9 @@ Proof.
     now destruct (rt_add_hook R pattern nm flts h partial).
   - pose proof (HInv_rt_remove_hook R pattern HI0 HH) as G. now destruct (rt_remove_hook R pattern).
   - now apply HInv_rt_remove_method.
+  - pose proof (HInv_rt_remove_obj R pattern flts HI0 HH) as G. now destruct (rt_remove_obj R pattern flts).
+  - pose proof (HInv_rt_route_method R pattern flts ms h overwrite HH) as G.
+    now destruct (rt_route_method R pattern flts ms h overwrite).
 Qed.
 
 Lemma Inv_HInv_exec cs : forall R, Inv R -> HInv R -> Forall noprefix_cmd cs ->
